@@ -172,4 +172,26 @@ theorem blockSpacings_lattice {T : TGrid} {mv : Rat} {nx ny nz : Nat} {blk : Nat
   simp only [prevOf] at sx sy sz
   rw [sx, sy, sz]
 
+theorem lineBlocks_row (b : Nat → GBlock) (cn : Nat → GConn) :
+    ∀ m i, lineBlocks (b i) (rowSteps b cn i m) = (List.range' i (m + 1)).map b := by
+  intro m
+  induction m with
+  | zero => intro i; rfl
+  | succ m ih =>
+    intro i
+    have e : lineBlocks (b i) (rowSteps b cn i (m + 1)) = b i :: lineBlocks (b (i + 1)) (rowSteps b cn (i + 1) m) := rfl
+    rw [e, ih (i + 1), List.range'_succ (n := m + 1), List.map_cons]
+
+/-- the walk along a row returns the row's blocks and, when the own distances are half the widths,
+    the widths -/
+theorem track_row {T : TGrid} {k : Nat} {mv : Option Rat} {n : Nat} {b : Nat → GBlock} {cn : Nat → GConn}
+    (R : Row T k mv n b cn) (hn : 0 < n) (hlen : n ≤ T.blocks.length) (w : Nat → Rat)
+    (hw : ∀ i, i < n → distAt (cn i) (b i).name = w i / 2 ∧ distAt (cn i) (b (i + 1)).name = w (i + 1) / 2) :
+    track T (b 0) k mv = .ok ((List.range' 0 (n + 1)).map b, (List.range' 0 (n + 1)).map w) := by
+  rw [track_line T k mv (b 0) (rowSteps b cn 0 n) (by rw [rowSteps_length]; exact hlen) (R.adm 0 (by omega)) R.isLine_row,
+    lineBlocks_row]
+  have s := rowSizes b cn w n (fun i hi => (hw i hi).1) (fun i hi => (hw i hi).2) n 0 (by omega) (by omega)
+  simp only [prevOf] at s
+  rw [s]
+
 end Proofs.RectGeo
